@@ -19,7 +19,8 @@ branches included:
 * `x/attribute/abci.go`: `BeginBlocker` = `DeleteExpiredAttributes(ctx, MaxExpiredAttributionCount)`,
   the constant being 100 000 (the sweep as
   repaired by commit f2249cacd; the earlier sweep is kept as `stepPreFix` for the witnesses).
-* `x/name/keeper/msg_server.go`: BindName :32 (under an unrestricted parent), DeleteName :99
+* `x/name/keeper/msg_server.go`: BindName :32 (`bindName` under an unrestricted parent,
+  `bindNameUnder` with the parent record: a restricted parent lets only its owner bind), DeleteName :99
   (`DeleteRecord` then `attrKeeper.PurgeAttribute`), ModifyName :162 (does not touch
   attributes); `x/name/keeper/keeper.go`: `ResolvesTo` :81, `NameExists` :173.
 
@@ -352,6 +353,20 @@ def bindName (s : State) (name owner : String) : Except Err State :=
   if nameExists s name then .error .exists
   else .ok { s with names := kvSet s.names name owner }
 
+/-- `BindName` (msg_server.go:32-55) in full: the parent record is fetched (:40, an error when there
+is none); when it is RESTRICTED the parent address of the message — its signer — must be the address
+the parent name resolves to (:46-:54); the rest is the bind under an unrestricted parent.
+`restricted` is the flag of the stored parent record (the model's name records carry the owner
+only, so the flag comes with the message); every error of `BindName` but "already bound" is an
+`ErrInvalidRequest`. -/
+def bindNameUnder (s : State) (parent : String) (restricted : Bool) (signer name owner : String) :
+    Except Err State :=
+  match getRecordByName s parent with
+  | none => .error .invalid
+  | some _ =>
+    if restricted && !resolvesTo s parent signer then .error .invalid
+    else bindName s name owner
+
 /-- `ModifyName` (msg_server.go:162): authority is the governance account or the current
 owner; attributes are not touched. -/
 def modifyName (s : State) (authority name newOwner : String) : Except Err State :=
@@ -494,6 +509,25 @@ def applyS (s : State) (x : SOp) : State :=
 
 def runS (s : State) (xs : List SOp) : State := xs.foldl applyS s
 
+/-! ### histories in which names are also bound under restricted parents -/
+
+/-- A message of such a history: a plain message, or `MsgBindName` with its parent record. -/
+inductive ROp
+  | plain (op : Op)
+  | bindUnder (parent : String) (restricted : Bool) (signer name owner : String)
+  deriving Repr
+
+def stepR (s : State) : ROp → Except Err State
+  | .plain op => step s op
+  | .bindUnder p r sg n o => bindNameUnder s p r sg n o
+
+def applyR (s : State) (x : ROp) : State :=
+  match stepR s x with
+  | .ok s' => s'
+  | .error _ => s
+
+def runR (s : State) (xs : List ROp) : State := xs.foldl applyR s
+
 /-- All messages of one transaction: the first refusal rolls everything back (op line `bulk`:
 many `MsgAddAttribute` messages that differ only in the value). -/
 def stepAll (s : State) : List SOp → Except Err State
@@ -501,6 +535,40 @@ def stepAll (s : State) : List SOp → Except Err State
   | x :: t => match stepS s x with
     | .ok s' => stepAll s' t
     | .error e => .error e
+
+/-! ### genesis export / import (x/attribute/keeper/genesis.go; cited by C18)
+
+Only the attribute RECORDS are exported; the lookup counters (0x03) and the expiration queue
+(0x04) are rebuilt by `importAttribute`, record by record. -/
+
+/-- `ExportGenesis` (genesis.go:88): `IterateRecords` over prefix 0x02 — every attribute record,
+whatever its expiration (an attribute the capped sweep has not reached yet is exported too). -/
+def exportGenesis (s : State) : List Attribute := s.recs
+
+/-- `importAttribute` (keeper.go:501): an attribute whose expiration is before the block time is
+skipped silently (:502-505); otherwise the record is stored, the name→address counter
+incremented and the expiration-queue entry of the STORED expiration added.  No name / owner
+check.  (`ValidateBasic` :508 cannot fail after `GenesisState.ValidateBasic`; `Normalize` :514 is
+the identity on stored names.) -/
+def importAttribute (s : State) (a : Attribute) : State :=
+  if !validateExpirationDate s a then s
+  else addAttributeExpireLookup (incAttrNameAddressLookup (setRec s a) a.name a.addr) a
+
+/-- `GenesisState.ValidateBasic` (types/genesis.go:12): every attribute passes `ValidateBasic`. -/
+def genesisValid (attrs : List Attribute) : Bool := attrs.all validateBasic
+
+/-- `InitGenesis` (genesis.go:14) into an EMPTY attribute store, at block time `now`, the account
+and name modules having been initialised already (`accts`, `names`): panics (`.error`) when the
+genesis state is invalid, else replays `importAttribute` over the records in their order. -/
+def initGenesis (now : Nat) (accts : List String) (names : List (String × String))
+    (attrs : List Attribute) : Except Err State :=
+  if !genesisValid attrs then .error .invalid
+  else .ok (attrs.foldl importAttribute { now := now, accts := accts, names := names })
+
+/-- Export the attribute module of `s` and initialise a fresh chain from it at block time `t`
+(accounts and name records as in `s`: their own round trip is not this module's). -/
+def regenesis (s : State) (t : Nat) : Except Err State :=
+  initGenesis t s.accts s.names (exportGenesis s)
 
 /-! ### the sweep before commit f2249cacd (historical; only for the `…_before_fix` witnesses)
 
